@@ -56,9 +56,10 @@ CLAIMS = {
         ref='DESIGN 6 C04'),
     'C03': dict(
         text='Deductive proof (Verus) of the real text of Linear::partial_evaluate (swap_remove loop: value preserved at every extension of the fixed part, no fixed id left, returned set = fixed ids that occurred, termination), '
+             'Quadratic::partial_evaluate (both loops incl. the three-array swap_remove loop with `continue`, BTreeMap entry API, Linear::new: Ok exactly for COO arrays of equal lengths, an error leaves the function untouched, no fixed id left, returned set exact, and at every assignment that agrees with the fixed part the value is the old value minus a DEFINED remainder - the entries with |v| <= EPSILON of the exact linear part, which Linear::new drops), '
              'Function::partial_evaluate (dispatch), Constraint/RemovedConstraint::partial_evaluate and Instance::partial_evaluate (fixed values recorded on exactly the right variables, objective / every active / every removed constraint '
              'partially evaluated in place, everything else framed). Ghost lemmas: commutation with evaluation on any split of a state, and two-step = one-step.',
-        note=A1 + 'ASSUMED, not verified: Quadratic::partial_evaluate and Polynomial::partial_evaluate (BTreeMap entry/merge code; their epsilon-dropped remainder is left uninterpreted) and the HashMap::values_mut loop over dependency functions. The property is decided for constants/linear functions and for the structural (instance) layer; partially for quadratic/polynomial.',
+        note=A1 + 'ASSUMED, not verified: Polynomial::partial_evaluate (BTreeMap keyed by Vec<u64>; its epsilon-dropped remainder is left uninterpreted), the HashMap::values_mut loop over dependency functions, and Linear::new as a callee (verified in C02 / C12; same contract text). The property is decided for constant, linear and quadratic functions and for the structural (instance) layer; for polynomials only relative to the assumed contract.',
         technique='contract-based deductive verification (Verus) of mechanically extracted Rust functions; ghost lemmas over the contracts',
         ref='DESIGN 6 C03'),
     'C12': dict(
@@ -85,7 +86,7 @@ CLAIMS = {
     'C10': dict(
         text='Deductive proof (Verus) of the real text of ParametricInstance::with_parameters (a declared parameter without a value => Err; otherwise objective and every active constraint are the C03 partial evaluation of the parametric functions by the parameter values - hence equal value at every (x,p) - '
              'with decision variables, sense, constraint ids/order, removed constraints, hints, dependencies, description unchanged and the supplied values recorded), of From<Instance> for ParametricInstance, From<State>/<Parameters>, and of the partial_evaluate callees; round-trip lemma for the empty assignment.',
-        note=A1 + 'ASSUMED callee contracts: Quadratic/Polynomial::partial_evaluate (see C03). The logging-only loop over missing parameters is dropped by a declared substitution.',
+        note=A1 + 'Quadratic::partial_evaluate is verified here too (same unit as C03). ASSUMED callee contracts: Polynomial::partial_evaluate (see C03), Linear::new (verified in C02 / C12). The logging-only loop over missing parameters is dropped by a declared substitution.',
         technique='contract-based deductive verification (Verus) of mechanically extracted Rust functions',
         ref='DESIGN 6 C10'),
     'C13': dict(
